@@ -15,7 +15,10 @@ THEOREMS = ['C01_sht_gram', 'C01_sht_roundtrip', 'C01_sht_roundtrip_bandlimited'
             'C01_sht_batch', 'C01_sht_integral', 'C01_fast_roundtrip', 'C01_fast_padding_inert',
             'C01_sht_integral_R', 'C01_fourier_orth_columns_R', 'C01_fourier_orth_R', 'C01_sht_roundtrip_fourier_R',
             'C01_fourier_aliasing_R', 'C01_normalization_literal', 'C01_grid_table_resolves',
-            'C01_hyps_satisfiable']
+            'C01_hyps_satisfiable',
+            'C01_legendre_accepts', 'C01_legendre_support', 'C01_legendre_H_p_support', 'C01_rhombus_triangle_zero',
+            'C01_legendre_p00', 'C01_legendre_parity', 'C01_legendre_three_term_ab', 'C01_legendre_three_term_eps',
+            'C01_legendre_eps_sq', 'C01_legendre_radicands', 'C01_legendre_nonvacuous']
 LEVEL = 'proof'
 LEVEL_TEXT = ('machine-checked theorems (Coq) for every field, all sizes M,L,I,J (and paddings), all tables and ALL '
               'spectral inputs: analysis(synth x) is exactly the Gram operator of the tables applied to x; under the '
@@ -25,10 +28,15 @@ LEVEL_TEXT = ('machine-checked theorems (Coq) for every field, all sizes M,L,I,J
               'fourier.real_basis / quadrature_nodes (every longitude offset, every M >= 1, every I >= 2M-1; exact '
               'condition: wavenumber sum of the two columns < I; aliasing counter-example for I < 2M-1), the closed '
               'form is tied to basis.f by correspondence; the Legendre / Gauss half remains a table obligation '
-              're-checked numerically on the implementation\'s own tables for every explored grid')
+              're-checked numerically on the implementation\'s own tables for every explored grid. '
+              'associated_legendre.py is inside the model (recurrence, index ranges, numpy index wrap, re-indexing, guard; '
+              'arithmetic regenerated from the source): support (H_p_support), p00 (H_p00), parity, the triangular zero '
+              'pattern and the three-term relation with eps^2 = (l^2-m^2)/(4l^2-1) are THEOREMS about the code\'s '
+              'recurrence for every field, every sqrt function, all node tables and sizes n_m <= n_l')
 LEVEL_NOTE = ('theorems are about the Gallina models Model/SHT.v, Model/SHTFast.v, Model/FourierR.v (all fields, sizes, '
               'tables, inputs; Fourier orthonormality over R with stdlib cos/sin/PI); NOT proved: that scipy\'s latitude '
-              'nodes/weights are Gauss rules and that the Legendre recurrence is orthonormal - these enter as named '
+              'nodes/weights are Gauss rules and that the Legendre recurrence is orthonormal (the polynomial-degree '
+              'argument, clause (e) of the Legendre deepening, is not done) - these enter as named '
               'hypotheses (H_legendre_orth(_deg), H_p_support, H_p00, H_weights) checked as table obligations per explored '
               'configuration; H_fourier_orth and H_f0 are theorems for the closed form AND still checked numerically on '
               'basis.f; model tied to the code by differential correspondence on one-hot and dense spectra')
@@ -246,10 +254,22 @@ def r_mesh(ctx, a):
 
 
 def generate(ctx):
+    """All cases; VERIF_C01_ONLY=<runner>[,<runner>] restricts the run to some runners (builder self-tests only:
+    the random stream, hence every case, is the same as in the full run)."""
+    import os
+    only = [r for r in os.environ.get('VERIF_C01_ONLY', '').split(',') if r]
+    for runner, args in _generate_all(ctx):
+        if not only or runner in only:
+            yield runner, args
+
+
+def _generate_all(ctx):
     rng = ctx.rng
     cfgs = small_configs(rng, ctx.tier)
     yield 'factory', {}
     yield 'rejects', {}
+    for lc in legendre_cases(rng, ctx.tier):
+        yield 'legendre', lc
     # a mesh grid with non-default latitude spacing and longitude offset
     yield 'mesh', {'mesh': [2, 2, 1], 'L': 7, 'K': 2, 'base': 1, 'seed': int(rng.integers(0, 2 ** 31)),
                    'spacing': 'equiangular', 'lon_offset': 0.1}
@@ -964,4 +984,134 @@ def r_cache_integrity(ctx, a):
     ctx.count('cache_integrity:node tables checked', len(used))
 
 
-RUNNERS = {'big_numpy': r_big_numpy, 'contexts': r_contexts, 'cache_integrity': r_cache_integrity, 'rejects': r_rejects, 'forms': r_forms, 'mesh': r_mesh, 'fourier_closed_form': r_fourier_closed_form, 'factory': r_factory, 'layout': r_layout, 'tables': r_tables, 'transforms': r_transforms}
+# ---------------------------------------------------------------------------
+# associated_legendre.py inside the model (Model/Legendre.v + Gen/Legendre.v)
+# ---------------------------------------------------------------------------
+NODE_KINDS = ['gauss', 'equiangular', 'equiangular_with_poles', 'random']
+
+
+def legendre_cases(rng, tier):
+    """(n_m, n_l, nx, node kind): n_m < n_l, n_m = n_l, n_m = 1, n_l = 1, one node, the rejections."""
+    out = []
+    sizes = [(3, 5, 4), (4, 4, 5), (1, 6, 3), (1, 1, 2), (2, 3, 1), (2, 7, 6), (5, 6, 3), (6, 6, 2), (2, 2, 3)]
+    if tier != 'quick':
+        sizes += [(8, 9, 5), (3, 12, 7), (10, 10, 3), (1, 12, 12), (7, 8, 8)]
+    for n, (n_m, n_l, nx) in enumerate(sizes):
+        kinds = [NODE_KINDS[n % 4], NODE_KINDS[(n + 1 + n // 4) % 4]] if tier == 'quick' else NODE_KINDS
+        for kind in dict.fromkeys(kinds):
+            nxx = max(nx, 2) if kind == 'equiangular_with_poles' else nx
+            out.append(dict(n_m=n_m, n_l=n_l, nx=nxx, nodes=kind, seed=int(rng.integers(0, 2 ** 31)), rhombus=int(n % 2 == 0)))
+    # the weights solve of the two equiangular spacings
+    for kind, nx in [('equiangular', 4), ('equiangular_with_poles', 5), ('equiangular', 1)] + (
+            [] if tier == 'quick' else [('equiangular', 9), ('equiangular_with_poles', 8)]):
+        out.append(dict(n_m=1, n_l=nx, nx=nx, nodes=kind, seed=0, rhombus=0, weights=1))
+    # rejections: n_m > n_l (ValueError); n_m = 0 (IndexError at p[0, 0])
+    for n_m, n_l in [(3, 2), (1, 0), (5, 4), (0, 2)]:
+        out.append(dict(n_m=n_m, n_l=n_l, nx=3, nodes='random', seed=int(rng.integers(0, 2 ** 31)), rhombus=0))
+    return out
+
+
+def legendre_nodes(al, kind, nx, seed):
+    """(nodes, weights or None, spacing index for exact_degree or None)"""
+    if kind == 'gauss':
+        x, w = al.gauss_legendre_nodes(nx); return np.asarray(x, dtype=np.float64), np.asarray(w, dtype=np.float64), 0
+    if kind == 'equiangular':
+        x, w = al.equiangular_nodes(nx); return np.asarray(x, dtype=np.float64).copy(), np.asarray(w, dtype=np.float64).copy(), 1
+    if kind == 'equiangular_with_poles':
+        x, w = al.equiangular_nodes_with_poles(nx); return np.asarray(x, dtype=np.float64).copy(), np.asarray(w, dtype=np.float64).copy(), 2
+    r = np.random.Generator(np.random.PCG64(seed))
+    x = r.uniform(-1.0, 1.0, size=nx)
+    if nx >= 3: x[0] = 0.0; x[-1] = 1.0          # equator and a pole among the random nodes
+    return x, None, None
+
+
+def r_legendre(ctx, a):
+    """associated_legendre.evaluate / _evaluate_rhombus / _compute_weights against Model/Legendre.v.  np.sqrt enters
+    the exact model as a finite table: the model lists the radicands it applies sqrt to (generated from the source),
+    the runner returns np.sqrt of their float64 values; the tables x, y = np.sqrt(1 - x*x) are inputs of the model."""
+    jax, jnp, sh, fourier, al = J_()
+    n_m, n_l, nx = a['n_m'], a['n_l'], a['nx']
+    x, wq, sp = legendre_nodes(al, a['nodes'], nx, a['seed'])
+    r = ctx.model.call(30, [n_m, n_l], [])
+    accepts, defined, keys = bool(int(r[0])), bool(int(r[1])), r[2:]
+    want = 'ok' if defined else ('ValueError' if not accepts else 'IndexError')
+    try:
+        p = al.evaluate(n_m, n_l, x); got = 'ok'
+    except ValueError: got = 'ValueError'
+    except IndexError: got = 'IndexError'
+    ctx.exact('evaluate: accepted / ValueError (n_m > n_l) / IndexError (n_m = 0)', got, want)
+    ctx.oracle('evaluate raises ValueError iff n_m > n_l', (got == 'ValueError') == (n_m > n_l), {'n_m': n_m, 'n_l': n_l, 'got': got})
+    ctx.count('legendre:' + got); ctx.count('legendre nodes:' + a['nodes'])
+    if got != 'ok' or want != 'ok':
+        return
+    ctx.exact('evaluate: output shape', list(p.shape), [n_m, nx, n_l])
+    vals = [float(np.sqrt(np.float64(float(k)))) for k in keys]         # np.sqrt of the float64 radicands
+    y = np.sqrt(1 - x * x)
+    arrs = [x, y, keys, vals]
+    mod = ctx.model.call(31, [n_m, n_l, nx], arrs)
+    if mod is None or len(mod) != p.size:
+        ctx.corr('evaluate (model returned nothing comparable)', p, mod); return
+    modp = np.array(mod, dtype=object).reshape(p.shape)
+    for m in range(n_m):
+        ctx.corr(f'evaluate(n_m, n_l, x)[{m}] = model (recurrence in exact arithmetic on the same sqrt / node tables)',
+                 p[m], list(modp[m].ravel()), scale=float(np.abs(p[m]).max()) + 1e-300)
+    if a.get('rhombus'):
+        rh = al._evaluate_rhombus(n_l=n_l, n_m=n_m, x=x, truncation='triangle')
+        ctx.corr("_evaluate_rhombus(truncation='triangle') = model", rh, ctx.model.call(32, [n_l, n_m, nx], arrs),
+                 scale=float(np.abs(rh).max()) + 1e-300)
+        outside = (np.arange(n_l)[:, None] + np.arange(n_m)[None, :]) >= n_l
+        ctx.oracle("_evaluate_rhombus(truncation='triangle') is exactly zero for m + k >= n_l", bool((rh[outside] == 0).all()), None)
+    y2 = ctx.model.call(34, [], [x])
+    if n_m >= 2 and n_l >= 2:
+        # y as the implementation used it, recovered from p[1, :, 1] = -sqrt(1 + 1/2) * y / sqrt(2)
+        yi = p[1, :, 1] * vals[0] / (-vals[1])
+        ctx.corr('y^2 recovered from evaluate()[1, :, 1] = generated radicand 1 - x^2', yi * yi, y2, scale=1.0)
+    # ---- the theorems' statements on the implementation
+    L_ = np.arange(n_l)[None, :]; M_ = np.arange(n_m)[:, None]
+    below = np.broadcast_to((L_ < M_)[:, None, :], p.shape)
+    ctx.oracle('support: evaluate()[m, :, l] == 0 exactly for l < m', bool((p[below] == 0).all()), None)
+    ctx.oracle_close('evaluate()[0, :, 0] = 1/sqrt(2)', p[0, :, 0], np.full(nx, 1 / math.sqrt(2)), scale=1.0, tol_rel=2.0 ** -50)
+    if n_m >= 2:
+        ctx.oracle_close('evaluate()[1, :, 1] = -sqrt(3)/2 * sqrt(1 - x^2) (sign of the diagonal recurrence: Condon-Shortley phase)',
+                         p[1, :, 1], -math.sqrt(3.0) / 2 * np.sqrt(1 - x * x), scale=1.0, tol_rel=2.0 ** -44)
+    if n_l >= 2:
+        ctx.oracle_close('evaluate()[0, :, 1] = sqrt(3/2) x', p[0, :, 1], math.sqrt(1.5) * x, scale=2.0, tol_rel=2.0 ** -44)
+    sgn = np.where(((L_ - M_) % 2) == 0, 1.0, -1.0)[:, None, :]
+    pm = al.evaluate(n_m, n_l, -x)
+    ctx.oracle_close('parity: evaluate(-x)[m, i, l] = (-1)^(l-m) evaluate(x)[m, i, l]', pm, sgn * p,
+                     scale=float(np.abs(p).max()), tol_rel=2.0 ** -44)
+    # three-term relation with the closed form eps(m, l)^2 = (l^2 - m^2) / (4 l^2 - 1)
+    if n_l >= 2:
+        lf = np.arange(n_l + 1, dtype=np.float64)[None, :]; mf = np.arange(n_m, dtype=np.float64)[:, None]
+        eps = np.sqrt(np.maximum(lf * lf - mf * mf, 0.0) / (4 * lf * lf - 1))            # (n_m, n_l + 1)
+        lhs = x[None, :, None] * p[:, :, :n_l - 1]
+        prev = np.concatenate([np.zeros((n_m, nx, 1)), p[:, :, :n_l - 2]], axis=2)
+        rhs = eps[:, None, 1:n_l] * p[:, :, 1:n_l] + eps[:, None, 0:n_l - 1] * prev
+        inside = np.broadcast_to((L_[:, :n_l - 1] >= M_)[:, None, :], lhs.shape)
+        ctx.oracle_close('three-term relation x p[m,l] = eps(m,l+1) p[m,l+1] + eps(m,l) p[m,l-1], eps^2 = (l^2-m^2)/(4l^2-1)',
+                         np.where(inside, lhs, 0.0), np.where(inside, rhs, 0.0), scale=float(np.abs(p).max()) * 2)
+    # orthonormality of the rows under the quadrature of the node family, for the degree sums the rule resolves
+    if wq is not None and not (a['nodes'] == 'equiangular_with_poles' and nx < 2):
+        D = int(ctx.model.call(4, [sp, 1, nx, 1, 1])[1])
+        G = np.einsum('j,mjl,mjk->mlk', wq, p, p); S = np.einsum('j,mjl,mjk->mlk', np.abs(wq), np.abs(p), np.abs(p))
+        sel = ((L_.T + L_) <= D)[None] & (L_.T >= M_[:, :, None]) & (L_[None] >= M_[:, :, None])
+        E = np.abs(G - np.eye(n_l)[None])
+        ok = bool((E[sel] <= 2.0 ** -36 * np.maximum(S[sel], 1.0)).all())
+        ctx.oracle(f'rows of evaluate() are orthonormal under the {a["nodes"]} rule for l + l\' <= D', ok,
+                   {'D': D, 'max_err': float(E[sel].max()) if sel.any() else 0.0})
+        ctx.count('legendre orthonormal pairs checked', int(sel.sum()))
+    # ---- _compute_weights: the solve result is an input of the model, the normalisation is modelled
+    if a.get('weights'):
+        leg = al.evaluate(n_m=1, n_l=nx, x=x)[0].T
+        z = np.zeros_like(x); z[0] = 1
+        ws = np.linalg.solve(leg, z)
+        wi = al._compute_weights(x)
+        out = ctx.model.call(33, [nx], arrs + [ws])
+        ctx.corr('_compute_weights: residual of the linear system at the numpy solution (model matrix) = 0', np.zeros(nx), out[:nx],
+                 scale=float((np.abs(leg) @ np.abs(ws)).max()) + 1.0)
+        ctx.corr('_compute_weights = normalisation (model) of the solve result', wi, out[nx:], scale=float(np.abs(wi).max()) + 1e-300)
+        ctx.oracle_close('_compute_weights: weights sum to 2', np.asarray(wi.sum()), np.asarray(2.0), scale=float(np.abs(wi).sum()))
+        ctx.count('legendre:weights')
+
+
+RUNNERS = {'legendre': r_legendre, 'big_numpy': r_big_numpy, 'contexts': r_contexts, 'cache_integrity': r_cache_integrity, 'rejects': r_rejects, 'forms': r_forms, 'mesh': r_mesh, 'fourier_closed_form': r_fourier_closed_form, 'factory': r_factory, 'layout': r_layout, 'tables': r_tables, 'transforms': r_transforms}
